@@ -532,3 +532,7 @@ mod tests {
         assert_eq!(matrix[(1, 1)], 2.0);
     }
 }
+
+#[cfg(all(test, pendulum_project_ntpd_rs_verif))]
+#[path = "/verif/harness/statime-algo/hook_matrix.rs"]
+mod verif_hook;
